@@ -188,11 +188,48 @@ Theorem c01_schedule_past_panics : forall (E : Type) (etime : E -> N) (esec : E 
 Proof. intros E etime esec en e. exact (schedule_past etime esec en e). Qed.
 Print Assumptions c01_schedule_past_panics.
 
+(** SetCurrentTime: moving the clock to a time not after any queued event keeps the invariant (all
+    theorems above then apply); moving it after the event that is due first makes the next Run panic
+    in dispatchNext ("cannot run event in the past") before any hook or handler runs, with that
+    event removed from its queue and nothing else changed. *)
+Theorem c01_set_current_time :
+  forall (E : Type) (etime : E -> N) (esec : E -> bool) (HS : Type) (H : HS -> E -> HS * list E)
+         (en : @engine E) (t : N) (fuel : nat) (hs : HS),
+  e_ok etime esec en ->
+  ((forall x, In x (pending en) -> t <= qtime etime x) -> e_ok etime esec (set_current_time en t)) /\
+  (no_more_event en = false ->
+   exists x en1, next_event etime en = Some (x, en1) /\
+     (forall y, In y (pending en) -> qtime etime x <= qtime etime y) /\
+     (qtime etime x < t ->
+      run etime esec H (S fuel) hs (set_current_time en t) =
+        mk_result Panicked [] hs (set_current_time en1 t))).
+Proof.
+  intros E etime esec HS H en t fuel hs Hok. split.
+  - apply set_time_ok. exact Hok.
+  - intro Hm. destruct (run_clock_ahead_panics etime esec H en t fuel hs Hok Hm) as (x & en1 & A & B & C).
+    exists x, en1. split; [exact A|]. split; [exact B|]. intro Hlt. apply C. exact Hlt.
+Qed.
+Print Assumptions c01_set_current_time.
+
+(** the driver of the correspondence check with SetCurrentTime(0) is the plain "Schedule*, Run" *)
+Theorem c01_run_script_at_0 : forall p cap init, run_script_at p cap init 0 = run_script p cap init.
+Proof. exact run_script_at_0. Qed.
+Print Assumptions c01_run_script_at_0.
+
 (** The handler scripts used by the correspondence check satisfy the hypothesis of the theorems
     whenever they contain no negative offset. *)
 Theorem c01_scripts_are_programs : forall p, nonneg_prog p -> H_ok s_time (script_handler p).
 Proof. exact script_H_ok. Qed.
 Print Assumptions c01_scripts_are_programs.
+
+(** ... and every such script run by the check terminates within the fuel the model gives it
+    (so "Run terminates" is not a vacuous hypothesis for the whole script family); scripts with a
+    negative offset end too, possibly by the Schedule panic. *)
+Theorem c01_scripts_terminate : forall p cap init,
+  r_out (run_script p cap init) <> OutOfFuel /\
+  (nonneg_prog p -> r_out (run_script p cap init) = Done).
+Proof. intros p cap init. split; [apply script_run_ends|apply script_run_done]. Qed.
+Print Assumptions c01_scripts_terminate.
 
 (* ------------------------------------------------------------------ non-vacuity *)
 
